@@ -1,4 +1,4 @@
-//! L2 harnesses: the real paseto-v4 source over the model crates of /verif/models.
+//! L2 harnesses: the real paseto-v2 source over the model crates of /verif/models.
 #![allow(dead_code, unused_imports, static_mut_refs)]
 extern crate alloc;
 
@@ -14,7 +14,7 @@ mod proofs {
     use paseto_core::key::HasKey;
     use paseto_core::paserk::PkeSealingVersion;
     use paseto_core::version::{Local, Public, SealingVersion};
-    use paseto_v4::core::V4 as V;
+    use paseto_v2::core::V2 as V;
 
     fn setup() {
     }
@@ -41,12 +41,12 @@ mod proofs {
         Recipient { pk: <V as SealingVersion<Public>>::unsealing_key(&sk), sk }
     }
 
-    instantiate_tokens!(V = V, NONCE = 32, TAG = 32, SIG = 64, A = 1, KS = ks, ARM = arm, DRAWS = draws);
-    instantiate_aad!(V = V, TAG = 32);
+    instantiate_tokens!(V = V, NONCE = 24, TAG = 16, SIG = 64, A = 0, KS = ks, ARM = arm, DRAWS = draws);
+    instantiate_noaad!(V = V);
     instantiate_paserk!(V = V, PIE_OVER = 64, SECRET_LEN = 64, PW_PREFIX = 56, PW_OVER = 88, PW_PARAMS_OFF = 16, PW_PARAMS_LEN = 16, ARM = arm, DRAWS = draws);
     instantiate_pke!(V = V, PKE_LEN = 96, RCPT = rcpt(), ARM = arm, DRAWS = draws);
 
-    h!(local_nonce_is_draw_, local_nonce_is_draw::<V>(32, last_draw));
+
     h!(public_rng_fail_closed_, public_rng_fail_closed::<V>(arm, draws));
     h!(pw_rng_fail_closed_at0, pw_rng_fail_closed::<V, 0>(".local-pw.", arm, draws));
     h!(pw_rng_fail_closed_at1, pw_rng_fail_closed::<V, 1>(".local-pw.", arm, draws));
